@@ -37,8 +37,8 @@ func Run(c *vf.Check) {
 	for _, n := range ns {
 		for t := n/2 + 1; t <= n; t++ {
 			for _, fast := range []bool{false, true} {
-				for _, rs := range []string{"", "same", "replace-one", "grow", "shrink", "new-threshold"} {
-					if rs != "" && fast && rs != "same" {
+				for _, rs := range []string{"", "same", "permute", "replace-one", "grow", "shrink", "new-threshold"} {
+					if rs != "" && fast && rs != "same" && rs != "permute" {
 						continue
 					}
 					faults := pedersenFaults(n, rs != "")
@@ -49,7 +49,7 @@ func Run(c *vf.Check) {
 								continue
 							}
 						}
-						if rs != "" && f.party >= 0 && fi%4 != 1 {
+						if rs != "" && rs != "permute" && f.party >= 0 && fi%4 != 1 {
 							continue // resharing configurations: a quarter of the fault menu
 						}
 						jobs = append(jobs, pcfg{n: n, t: t, fast: fast, reshare: rs, fault: f, permNode: -1})
@@ -62,7 +62,7 @@ func Run(c *vf.Check) {
 	rj := rabinJobs(c)
 	vf.Parallel(len(rj), func(i int) { rj[i]() })
 	runProtocol(c)
-	c.Finish("engine S/E on the real DistKeyGenerator objects (Pedersen) and the per-message Rabin API: n=3 (thorough 3,4), every t in [n/2+1, n], regular and fast-sync, fresh and resharing {same group, one leaves and one joins, growing, shrinking, new threshold}; the deviating party (first or last index) gets one behaviour from a menu of 19 {absent in all / response / justification phases, invalid share to each victim (then justified, not justified, wrongly justified), share encrypted to the wrong holder, share index out of range, commitments of length t-1 / t+1, wrong session id on deals / responses / justifications, duplicate identical bundle, two conflicting bundles, false complaint against each dealer, success response in regular mode, response naming an unknown dealer, justification for an out-of-range index, (resharing) wrong constant term}; bundles are mutated honest bundles re-signed with the deviating party's key and filtered by VerifyPacketSignature at every receiver as the Protocol driver does. "+
+	c.Finish("engine S/E on the real DistKeyGenerator objects (Pedersen) and the per-message Rabin API: n=3 (thorough 3,4), every t in [n/2+1, n], regular and fast-sync, fresh and resharing {same group, same members under permuted indices (full fault menu), one leaves and one joins, growing, shrinking, new threshold}; the deviating party (first or last index) gets one behaviour from a menu of 19 {absent in all / response / justification phases, invalid share to each victim (then justified, not justified, wrongly justified), share encrypted to the wrong holder, share index out of range, commitments of length t-1 / t+1, wrong session id on deals / responses / justifications, duplicate identical bundle, two conflicting bundles, false complaint against each dealer, success response in regular mode, response naming an unknown dealer, justification for an out-of-range index, (resharing) wrong constant term}; bundles are mutated honest bundles re-signed with the deviating party's key and filtered by VerifyPacketSignature at every receiver as the Protocol driver does. "+
 		"For every honest node and phase, EVERY permutation of the bundle slice handed to ProcessDeals/Responses/Justifications is run and the node's emitted bundle and final output must equal those of the canonical order. End-state oracle: honest nodes that complete have identical commitments and QUAL, each share lies on the polynomial, every t-subset of honest shares reconstructs the secret of the public key, the key is the sum of QUAL's contributions (resharing: unchanged), a dealer with an unjustified invalid deal is not in QUAL, an honest dealer with < t complaints is; no fault => everybody completes. "+
 		"L2 - the goroutine-driven Protocol type: n=3 real dkg.Protocol instances (signature verification on) talk through a harness Board (unbuffered channels, one pending send at a time) and a harness Phaser, so the harness decides the whole schedule; events = {phase tick at node i (timers fire only when no delivery is pending anywhere), delivery of a posted packet to node i, one repeated delivery}; stateless depth-first search with sleep sets (events at different nodes commute), every execution run to completion on fresh objects, InitPhase ticks as barriers; regular mode without faults: ALL schedules (every Mazurkiewicz trace once); other configurations: all schedules within the stated number of deviations from the canonical synchronous-rounds schedule; deviating party behaviours {absent, invalid share (justified / not), two conflicting deal bundles, false complaint, two conflicting response bundles} applied to what its real Protocol pushes; same end-state oracle plus: every Protocol goroutine delivers a result or an error. "+
 		"non-trivial = runs with a fault or a non-identity delivery order / non-canonical schedule; distinct by (configuration, fault, permuted node/phase/order or schedule)",
